@@ -68,8 +68,12 @@ class Calc(object):
                       | expression LSHIFT expression
                       | expression RSHIFT expression"""
         try:
+            if p[2] in ('<<', '>>') and p[3] > 64:
+                raise OverflowError("shift count out of range")
             p[0] = Calc._binop(p[1], p[2], p[3])
-        except (ZeroDivisionError, ValueError) as e:
+            if not -(1 << 64) < p[0] < (1 << 64):
+                raise OverflowError("value out of 64-bit range")
+        except (ZeroDivisionError, ValueError, OverflowError) as e:
             raise ParseError("cannot evaluate '%s %s %s': %s" % (p[1], p[2], p[3], e))
 
     @staticmethod
